@@ -448,6 +448,7 @@ func (fox *Router) Txn(write bool) *Txn {
 func (fox *Router) txnWith(write, cache bool) *Txn {
 	if write {
 		fox.mu.Lock()
+		verifPoint("txn.afterLock")
 	}
 
 	return &Txn{
